@@ -59,6 +59,9 @@ def run_action_open(cfg: OpenActionConfig) -> int:
             all_targets_in_line.append(word)
         elif is_targetable_zid:
             all_targets_in_line.append(zid_word)
+        elif zdt.is_zid(zid_word):
+            # This is the line's primary ZID; every ZID after it is a target.
+            found_primary_zid = True
         elif (
             not found_primary_zid
             and not _is_prefix_symbol(word)
